@@ -877,6 +877,10 @@ func (r *runningStep) executeSubWorkflows(input executeInput) ([]any, map[int]st
 			case sem <- struct{}{}:
 			case <-r.ctx.Done():
 				r.logger.Debugf("Aborting item %d execution.", i)
+				// An item that never ran has no output: it must not leave a hole in a "success" result.
+				r.lock.Lock()
+				itemErrors[i] = "item not executed: the step was closed before the item could start"
+				r.lock.Unlock()
 				return
 			}
 
